@@ -13,6 +13,28 @@ OBLIGATIONS = [
          subst={"pbind.c": [("#define BufferSize 8192", "#define BufferSize 16")]}),
     tool("plist_bytes", "TOOL_PLIST", "plist.c", ["plist.c:ProcessSingle", "toolutils.c:ReadRecordHeader", "toolutils.c:SkipRecord", "toolutils.c:ReadRelocInfo"], units=["addrspace.c"]),
 ]
-META = dict(outside=["asl itself on arbitrary source bytes (line splitter/macro processor/expression parser do not finish under symex)", "alink, dasl, p2hex (pending)",
+OBLIGATIONS.append(dict(name="record_reader", src="recio.c", include=["toolutils.c"], defs=["NB=10", "STRINGSIZE=16"], object_bits=13, mem_gb=20, unwind=14, unwind_fn={"harness": 14, "ReadRelocInfo": 3},
+    functions=["toolutils.c:ReadRecordHeader", "toolutils.c:SkipRecord", "toolutils.c:ReadRelocInfo", "toolutils.c:DestroyRelocInfo", "toolutils.c:Granularity"], timeout=900,
+    bounds="every file of 0..10 arbitrary bytes; relocation tables with more than 2 entries exceed the unwinding bound (reported, not passed)",
+    assumes=["stdio replaced by the memory-file model"]))
+for _o in list(OBLIGATIONS[:3]):
+    _s = dict(_o); _s["name"] = _o["name"].replace("_bytes", "_fields"); _s["defs"] = [d for d in _o["defs"] if not d.startswith("NB=") and d != "GOOD_MAGIC"] + ["STRUCTURED", "CF_R=2", "CF_L=2"]
+    _s["bounds"] = "code file of 2 records with unconstrained header fields (granularity/segment/CPU 0..255, length 0..2, kinds long/short/entry/$82/absent), truncated at any length"
+    _s["unwind"] = 10; _s["unwind_fn"] = {"harness": 10, "cf_load": 20, "cf_build": 8, "vp_vfprintf": 48}
+    OBLIGATIONS.append(_s)
+for _o in OBLIGATIONS:
+    if _o["name"].endswith("_bytes") or _o["name"].endswith("_fields"): _o["tier"] = "experimental"     # do not finish inside the quick budget (see DESIGN.md)
+# crash-class kernels shared with other properties: the same harnesses run with CBMC's memory/arithmetic
+# checks; the inputs that used to crash the assembler are inside their bounds
+import importlib.util, os
+def _other(prop):
+    p = os.path.join(os.path.dirname(__file__), "..", prop, "spec.py")
+    sp = importlib.util.spec_from_file_location("spec" + prop, p); m = importlib.util.module_from_spec(sp); sp.loader.exec_module(m); return m
+for _prop, _names in (("C08", ("op_div", "op_mod", "fn_str", "op_shl")), ("C12", ("ifs_k4",)), ("C10", ("align_low",))):
+    for _o in _other(_prop).OBLIGATIONS:
+        if _o["name"] in _names:
+            OBLIGATIONS.append(dict(_o, src="../%s/%s" % (_prop, _o["src"])))
+META = dict(outside=["whole utilities on arbitrary bytes: harnesses exist (thorough tier) but p2bin/plist do not finish; known by reading: a file truncated after an entry record makes p2bin/p2hex loop forever, granularity byte 0 divides by zero, segment byte >= 11 indexes out of bounds",
+                     "asl itself on arbitrary source bytes (line splitter/macro processor/expression parser do not finish under symex)", "alink, dasl, p2hex (pending)",
                      "files longer than the stated bound", "all code generators"],
             assumptions=["malloc never fails"])
